@@ -473,6 +473,85 @@ def _decide(run, key, finding, case, got_state, exp_cells, check_hull, assume, n
     return False
 
 
+# ------------------------------------------------------------------------------------------
+# moving-window functions with the window OMITTED: the documented default is one year of periods (365 for daily series), 4 for
+# integer-dated series
+# ------------------------------------------------------------------------------------------
+_DEFAULT_WINDOW = {"Y": 1, "H": 2, "Q": 4, "M": 12, "D": 365, "I": 4}
+
+
+def _dw_start(ir, fk):
+    return {"Y": lambda: ir.yy(2020), "H": lambda: ir.hh(2020, 2), "Q": lambda: ir.qq(2020, 3), "M": lambda: ir.mm(2020, 5),
+            "D": lambda: ir.dd(2023, 12, 30), "I": lambda: ir.ii(7)}[fk]()
+
+
+def _dw_run(ir, fk, fname, form, values=None, lifted=True):
+    w = _DEFAULT_WINDOW[fk]
+    n = w + 2
+    start = _dw_start(ir, fk)
+    if lifted:
+        x, syms = tagged(ir, start, n, 1, (), "x", values=values)
+    else:
+        x, syms = float_series(ir, start, n, 1, (), "x", values), {}
+    cells = cellmap(x)
+    out = getattr(ir, fname)(x) if form == "function" else (lambda y: (getattr(y, fname)(), y)[1])(x.copy())
+    exp = {}
+    s0 = start.serial
+    for t in range(w - 1, n):
+        acc = None
+        for k in range(t - w + 1, t + 1):
+            c = cells[(s0 + k, 0)]
+            acc = c if acc is None else acc + c
+        exp[(s0 + t, 0)] = acc / w if fname in ("mov_avg", "mov_mean") else acc
+    return out, exp, syms
+
+
+def check_default_windows(run, ir):
+    for fk in _DEFAULT_WINDOW:
+        for fname in ("mov_sum", "mov_avg"):
+            for form in ("function", "method"):
+                key = f"default_window:{fk}:{fname}:{form}"
+                case = dict(kind="default_window", fk=fk, fname=fname, form=form)
+                try:
+                    with S.Path() as path:
+                        out, exp, syms = _dw_run(ir, fk, fname, form)
+                    got = cellmap(out)
+                    if set(got) != set(exp):
+                        run.counterexample(key, f"series:default_window:{fname}", f"{fname}(x) with the window omitted on a {fk} series: non-missing cells "
+                                           f"extra {sorted(set(got) - set(exp))[:3]} missing {sorted(set(exp) - set(got))[:3]} (default window {_DEFAULT_WINDOW[fk]})", dict(case, values={}))
+                        continue
+                    eqs = [S.const(got[k_]).t == S.const(exp[k_]).t for k_ in sorted(exp)]
+                    r, mdl = run.prove(key, z3.And(*eqs), [path.condition()], timeout_ms=60000)
+                    if r == "unsat":
+                        run.ok(key)
+                    elif r == "sat":
+                        vals = model_values(mdl, sorted(syms))
+                        run.counterexample(key, f"series:default_window:{fname}", f"{fname}(x) with the window omitted differs from the sum/mean over {_DEFAULT_WINDOW[fk]} periods",
+                                           dict(case, values={n_: [v.numerator, v.denominator] for n_, v in vals.items()}))
+                    else:
+                        run.unknown(key, f"solver {r}")
+                except S.SymbolicBranchError as exc:
+                    run.unknown(key, exc)
+                except Exception as exc:
+                    run.counterexample(key, f"series:default_window:raises:{fname}", f"{fname}(x) raises {type(exc).__name__}: {str(exc)[:120]}", dict(case, values={}))
+
+
+def _replay_default_window(ir, case):
+    vals = {k: float(Fraction(a, b)) for k, (a, b) in case.get("values", {}).items()}
+    w = _DEFAULT_WINDOW[case["fk"]]
+    for i in range(w + 2):
+        vals.setdefault(f"x{i}v0", 1.0 + 0.125 * (i % 7))
+    try:
+        out, exp, _ = _dw_run(ir, case["fk"], case["fname"], case["form"], values=vals, lifted=False)
+    except Exception as exc:
+        return True, f"raises {type(exc).__name__}: {exc}"
+    got = cellmap(out)
+    if set(got) != set(exp):
+        return True, f"non-missing cells: extra {sorted(set(got) - set(exp))[:3]} missing {sorted(set(exp) - set(got))[:3]}"
+    worst = max((abs(float(got[k_]) - float(exp[k_])) for k_ in exp), default=0.0)
+    return worst > 1e-9, f"largest difference {worst!r}"
+
+
 def _configs(tier):
     xs = [Cfg(0, 3), Cfg(0, 4, 2, (1,)), Cfg(0, 0), Cfg(0, 4, 1, (2,)), Cfg(0, 1), Cfg(0, 3, 2, ((0, 1), (2, 0))),
           Cfg(0, 5, 1, (1, 2)), Cfg(0, 6, 2, ((1, 0), (2, 0), (3, 0), (2, 1), (4, 1)))]          # gaps of two and three periods
@@ -508,7 +587,9 @@ def main(run):
     run.stubs.append("scipy.signal.lfiltic/lfilter (compiled) in series._extrapolate -> pure all-pole recursion on objects, validated against scipy.signal on floats at every run")
     _sig = npproxy.SubProxy(scipy.signal, {"lfiltic": _stub_lfiltic, "lfilter": _stub_lfilter})
     _spx = npproxy.SubProxy(scipy, {"signal": _sig})
+    run.bounds["default_windows"] = "mov_sum/mov_avg with the window omitted on yearly, half-yearly, quarterly, monthly, daily (365) and integer (4) series of window+2 periods, both forms"
     with npproxy.installed(proxy, *mods, extra=[none_is_nan_patch(ir), (_ex, "_sp", _spx)]):
+        check_default_windows(run, ir)
         for fr in (("Q",) if run.tier == "quick" else ("Q", "I")):
             for xc in xs:
                 names_x = sorted(xc.make(ir, fr)[1])
@@ -609,6 +690,8 @@ def replay(case):
     if case.get("kind") == "xh":
         return xhrun.replay_case(case)
     ir = load_irispie()
+    if case.get("kind") == "default_window":
+        return _replay_default_window(ir, case)
     fr = case["fr"]
     xc = Cfg.from_json(case["x"])
     vals = {k: float(Fraction(a, b)) for k, (a, b) in case.get("values", {}).items()}
